@@ -17,19 +17,30 @@ from .srcmodel import FuncInfo, Model, norm
 
 
 class Inliner:
-    def __init__(self, model: Model, normalise: Callable[[List[ast.stmt]], List[ast.stmt]]):
+    def __init__(self, model: Model, normalise: Callable[[List[ast.stmt]], List[ast.stmt]], cls_q: Optional[str] = None):
         self.m = model
+        self.cls_q = cls_q
         self.normalise = normalise
         self.counter = 0
         self.inlined: List[str] = []
 
     # ---------------------------------------------------------------- which helpers
     def helper_of(self, module: str, call: ast.Call, stack: List[str]) -> Optional[FuncInfo]:
-        if not isinstance(call.func, ast.Name):
-            return None
-        q = self.m.resolve_name(module, call.func.id)
-        hf = self.m.functions.get(q) if q else None
-        if hf is None or hf.cls is not None or hf.module != module or isinstance(hf.node, ast.Lambda) or hf.node.decorator_list or stack.count(hf.qualname) >= 2:
+        hf = None
+        if isinstance(call.func, ast.Name):
+            q = self.m.resolve_name(module, call.func.id)
+            hf = self.m.functions.get(q) if q else None
+            if hf is not None and (hf.cls is not None or hf.node.decorator_list if not isinstance(hf.node, ast.Lambda) else True):
+                return None
+        elif isinstance(call.func, ast.Attribute) and isinstance(call.func.value, ast.Name) and call.func.value.id in ("cls", "self") and self.cls_q and \
+                call.func.attr.startswith("_") and not call.func.attr.startswith("__"):
+            # a private method of the decoder's own class hierarchy that is handed the reader (cls._read_common(reader, ...))
+            hf = self.m.find_method(self.cls_q, call.func.attr)
+            if hf is not None and not isinstance(hf.node, ast.Lambda):
+                decs = [norm(d).split(".")[-1] for d in hf.node.decorator_list]
+                if any(d not in ("classmethod", "staticmethod") for d in decs):
+                    return None
+        if hf is None or hf.module != module or isinstance(hf.node, ast.Lambda) or stack.count(hf.qualname) >= 2:
             return None
         anns = [norm(a.annotation) if a.annotation is not None else "" for a in hf.node.args.args + hf.node.args.kwonlyargs]
         makes_reader = any(isinstance(x, ast.Call) and isinstance(x.func, ast.Name) and x.func.id == "ASN1Reader" for x in ast.walk(hf.node))
@@ -69,9 +80,16 @@ class Inliner:
         body = copy.deepcopy(self.single_exit(hf))
         a = hf.node.args
         allp = a.posonlyargs + a.args
-        params = [p.arg for p in allp] + [p.arg for p in a.kwonlyargs]
         stores = {x.id for b in body for x in ast.walk(b) if isinstance(x, ast.Name) and isinstance(x.ctx, (ast.Store, ast.Del))}
         bound: Dict[str, ast.expr] = {}
+        if hf.cls is not None and isinstance(call.func, ast.Attribute) and not hf.is_staticmethod and allp:
+            # bound call: the callee's first parameter is the receiver
+            bound[allp[0].arg] = call.func.value
+            allp = allp[1:]
+            first = [hf.node.args.posonlyargs + hf.node.args.args][0][0].arg
+            params = [first] + [p.arg for p in allp] + [p.arg for p in a.kwonlyargs]
+        else:
+            params = [p.arg for p in allp] + [p.arg for p in a.kwonlyargs]
         for i, arg in enumerate(call.args):
             if i < len(allp):
                 bound[allp[i].arg] = arg
@@ -291,7 +309,7 @@ def scalar_replace(model: Model, module: str, body: List[ast.stmt]) -> List[ast.
 
 def inline_reader_helpers(model: Model, fi: FuncInfo, normalise) -> List[ast.stmt]:
     """the body of fi with every inlinable reader helper expanded (a deep copy; the model's AST is not touched)"""
-    inl = Inliner(model, normalise)
+    inl = Inliner(model, normalise, fi.cls)
     body = copy.deepcopy(list(fi.node.body))
     out = inl.block(body, fi.module, [fi.qualname, fi.qualname])
     return resolve_discriminators(scalar_replace(model, fi.module, out))
@@ -303,6 +321,21 @@ def resolve_discriminators(body: List[ast.stmt]) -> List[ast.stmt]:
     that way and the two statements go, so a dispatch on a derived "choice" variable reads like a dispatch on the tag itself."""
     def rewrite_block(stmts: List[ast.stmt]) -> List[ast.stmt]:
         out = list(stmts)
+        # X = <E> if <T> else None   is the one-statement spelling of   X = None ; if <T>: X = <E>
+        expanded: List[ast.stmt] = []
+        for s_ in out:
+            if isinstance(s_, (ast.Assign, ast.AnnAssign)) and isinstance(s_.value, ast.IfExp) and isinstance(s_.value.orelse, ast.Constant) and s_.value.orelse.value is None:
+                tg = s_.targets if isinstance(s_, ast.Assign) else [s_.target]
+                if len(tg) == 1 and isinstance(tg[0], ast.Name):
+                    a0 = ast.copy_location(ast.Assign(targets=[ast.Name(id=tg[0].id, ctx=ast.Store())], value=ast.Constant(value=None)), s_)
+                    a1 = ast.copy_location(ast.Assign(targets=[ast.Name(id=tg[0].id, ctx=ast.Store())], value=s_.value.body), s_)
+                    iff = ast.copy_location(ast.If(test=s_.value.test, body=[a1], orelse=[]), s_)
+                    for x in (a0, iff):
+                        ast.fix_missing_locations(x)
+                    expanded += [a0, iff]
+                    continue
+            expanded.append(s_)
+        out = expanded
         i = 0
         while i + 1 < len(out):
             a, b = out[i], out[i + 1]
